@@ -233,13 +233,24 @@ func txTok(tx string) int {
 }
 
 func tieCase(ctx context.Context, before *Dump, cur *schema.Schema, changes []schema.Change, fk bool, tx string, k int) (string, string) {
+	return tieCaseF(ctx, before, cur, changes, fk, tx, k, 0, 0)
+}
+
+// tieCaseFault: --tx-mode file with one failing statement.  fcode: 1 OpenTx's pragma query, 2 its
+// PRAGMA foreign_keys = off, 3 BEGIN, 4 the first foreign_key_check, 5 statement fidx of the plan,
+// 6 the second foreign_key_check, 7 COMMIT, 8 the restoring pragma (RowsModel.fault).
+func tieCaseFault(ctx context.Context, before *Dump, cur *schema.Schema, changes []schema.Change, fk bool, fcode, fidx int) (string, string) {
+	return tieCaseF(ctx, before, cur, changes, fk, "file", -1, fcode, fidx)
+}
+
+func tieCaseF(ctx context.Context, before *Dump, cur *schema.Schema, changes []schema.Change, fk bool, tx string, k int, fcode, fidx int) (string, string) {
 	e := &tieEnc{ctx: ctx}
 	// k >= 0: only the first k statements of the plan are executed
 	showFK := "0"
 	if (tx == "none" || tx == "file") && wantFKLine {
 		showFK = "1"
 	}
-	e.add(b01(fk), fmt.Sprint(txTok(tx)), fmt.Sprint(k), showFK, fmt.Sprint(len(before.Names)))
+	e.add(b01(fk), fmt.Sprint(txTok(tx)), fmt.Sprint(k), showFK, fmt.Sprint(fcode), fmt.Sprint(fidx), fmt.Sprint(len(before.Names)))
 	// tables in creation order would need sqlite_master.rowid; the model does not depend on the order
 	for _, n := range before.Names {
 		t := before.Tables[n]
@@ -340,7 +351,6 @@ func tieObs(before, after *Dump, errClass string) []string {
 	}
 	return out
 }
-
 
 // typeChanged: some column has another declared type afterwards.
 func typeChanged(before, after *Dump) bool {
